@@ -46,6 +46,7 @@ pub(crate) enum K {
     EofMidLine,
     Reset,
     HalfOpen,
+    Backpressure,
     Ping,
     Gated,
     CapStuff,
@@ -969,6 +970,81 @@ impl<'a> Gen<'a> {
                 self.emit(vec![Action::Reset { c }])
             }
             K::HalfOpen => self.emit(vec![Action::BreakWrites { c }]),
+            K::Backpressure => {
+                // one or two receivers stop/limit reading while others talk; then they drain in a seeded order
+                let regs = self.registered_conns();
+                if regs.len() < 3 {
+                    return false;
+                }
+                let mut slow: Vec<usize> = vec![];
+                let nslow = self.r.range(1, 2);
+                for _ in 0..nslow {
+                    let x = regs[self.r.below(regs.len())];
+                    if !slow.contains(&x) {
+                        slow.push(x);
+                    }
+                }
+                let talkers: Vec<usize> = regs.iter().copied().filter(|x| !slow.contains(x)).collect();
+                if talkers.is_empty() {
+                    return false;
+                }
+                self.mark("defer:on");
+                for &sl in &slow {
+                    let n = [0usize, 0, 1, 17, 60, 200][self.r.below(6)];
+                    self.actions.push(Action::Window { c: sl, n });
+                }
+                self.exclude.extend(slow.iter().copied());
+                let nmsg = self.r.range(3, 7);
+                for _ in 0..nmsg {
+                    let t = talkers[self.r.below(talkers.len())];
+                    let me = self.nick_of(t);
+                    let target = match self.r.below(4) {
+                        0 => {
+                            let i = self.r.below(slow.len());
+                            self.nick_of(slow[i])
+                        }
+                        1 | 2 => match {
+                            let sn = self.nick_of(slow[0]);
+                            self.pick_chan_of(&sn)
+                        } {
+                            Some(ch) => ch,
+                            None => self.nick_of(slow[0]),
+                        },
+                        _ => match self.pick_chan_of(&me) {
+                            Some(ch) => ch,
+                            None => self.pick_user(),
+                        },
+                    };
+                    let verb = if self.r.chance(3, 4) { "PRIVMSG" } else { "NOTICE" };
+                    let text = self.text();
+                    self.say(t, &format!("{} {} :{}", verb, target, text));
+                    if self.r.chance(1, 4) {
+                        let sl = slow[self.r.below(slow.len())];
+                        let n = [1usize, 30, 100, 500][self.r.below(4)];
+                        self.actions.push(Action::Grant { c: sl, n });
+                        self.actions.push(Action::Settle);
+                    }
+                }
+                // drain in a seeded order, in seeded portions
+                let mut order = slow.clone();
+                if self.r.chance(1, 2) {
+                    order.reverse();
+                }
+                for &sl in &order {
+                    for _ in 0..self.r.range(0, 3) {
+                        let n = [1usize, 7, 64, 300][self.r.below(4)];
+                        self.actions.push(Action::Grant { c: sl, n });
+                        self.actions.push(Action::Settle);
+                    }
+                    self.actions.push(Action::Window { c: sl, n: usize::MAX });
+                    self.actions.push(Action::Settle);
+                }
+                self.actions.push(Action::Settle);
+                self.mark("defer:off");
+                self.actions.push(Action::Settle);
+                self.exclude.retain(|x| !slow.contains(x));
+                true
+            }
             K::Gated => {
                 let un = self.unregistered_conns();
                 if un.is_empty() {
